@@ -1,4 +1,5 @@
 import ErgoVerif.Lemmas.TM
+import ErgoVerif.Model.Guard
 /-!
 # C14 — remote failure detection (node down part)
 
@@ -134,5 +135,56 @@ example : ((routeNodeDown (run init ops) 2).2).length = 6 := by decide
 example : ((routeNodeDown (run init ops) 2).1.rel).length = 2 := by decide
 example : (routeNodeDown (run init ops) 2).2.count ⟨pA, .exit, .pid rP⟩ = 1 := by decide
 example : (routeNodeDown (run init ops) 2).2.count ⟨rP, .exit, .pid pA⟩ = 0 := by decide
+
+/-! ### incarnations: the generated guard table -/
+section Incarnation
+open ErgoVerif.Gen.Guard ErgoVerif.GuardModel
+
+/-- every exported connection method that addresses a pid or an alias checks its creation stamp as its very first
+    statement, against the right incarnation (finite generated table) -/
+theorem guard_table_ok : table.all WellGuarded = true := by decide
+
+/-- the table is not empty / not the fallback: the 15 remote-addressed and the 2 Terminate methods are there -/
+theorem guard_table_rows :
+    (table.filter fun r => r.ptype != "" && !r.localSubject).length = 15 ∧
+    (table.filter fun r => r.ptype != "" && r.localSubject).length = 2 := by decide
+
+/-- **stale identifiers are refused before anything is produced**: for every guarded method, an identifier whose
+    creation differs from the connected peer's incarnation yields ErrProcessIncarnation with no statement
+    (hence no buffer, no frame byte) executed before the verdict -/
+theorem C14_incarnation (r : Row) (hr : r ∈ table) (hp : r.ptype ≠ "") (hl : r.localSubject = false)
+    (ident peer loc : Nat) (h : ident ≠ peer) : call r ident peer loc = (.errIncarnation, 0) := by
+  have hw := List.all_eq_true.mp guard_table_ok r hr
+  simp only [WellGuarded, hl, Bool.or_eq_true, beq_iff_eq, Bool.and_eq_true, Bool.false_eq_true, ↓reduceIte] at hw
+  rcases hw with hw | ⟨h0, h1⟩
+  · exact absurd hw hp
+  · simp [call, h1, h0, h]
+
+/-- an identifier of the current incarnation passes the guard -/
+theorem C14_current_incarnation_passes (r : Row) (hr : r ∈ table) (hp : r.ptype ≠ "") (hl : r.localSubject = false)
+    (peer loc : Nat) : call r peer peer loc = (.proceeds, 0) := by
+  have hw := List.all_eq_true.mp guard_table_ok r hr
+  simp only [WellGuarded, hl, Bool.or_eq_true, beq_iff_eq, Bool.and_eq_true, Bool.false_eq_true, ↓reduceIte] at hw
+  rcases hw with hw | ⟨h0, h1⟩
+  · exact absurd hw hp
+  · simp [call, h1, h0]
+
+/-- **remote termination is announced whatever the peer's incarnation is** (D26 repaired): the subject of a
+    Terminate frame lives on the sending node, its creation is the sender's own, and the guard compares it with the
+    sender's own creation — so the frame is produced for every peer creation -/
+theorem C14_terminate_announced (r : Row) (hr : r ∈ table) (hp : r.ptype ≠ "") (hl : r.localSubject = true)
+    (peer loc : Nat) : call r loc peer loc = (.proceeds, 0) := by
+  have hw := List.all_eq_true.mp guard_table_ok r hr
+  simp only [WellGuarded, hl, Bool.or_eq_true, beq_iff_eq, Bool.and_eq_true, ↓reduceIte] at hw
+  rcases hw with hw | ⟨h0, h1⟩
+  · exact absurd hw hp
+  · have : r.guard ≠ 1 := by omega
+    simp [call, h1, h0]
+
+example : (⟨"SendPID", "to", "PID", false, 1, 0⟩ : Row) ∈ table := by decide
+example : (⟨"SendTerminatePID", "target", "PID", true, 2, 0⟩ : Row) ∈ table := by decide
+example : call ⟨"SendPID", "to", "PID", false, 1, 0⟩ 99 100 7 = (.errIncarnation, 0) := by decide
+
+end Incarnation
 
 end ErgoVerif.Props.C14
